@@ -105,18 +105,19 @@ C24Verdict(c, o) ==
 (* ===========================================================================*)
 (* accuracy class of the expression an order is implemented with *)
 AccClass(v, k, q, fl) ==
-  CASE v \in {"us", "ut", "ps"} /\ k = 1 -> "exact"
-    [] v \in {"us", "ut", "ps"} /\ k = 2 -> "gfun"    \* exact expressions, approximated Mellin g-functions
-    [] v \in {"us", "ut", "ps"} /\ k >= 3 -> "param"  \* documented 0.1 % parametrisations
-    [] v = "qed" /\ q = 0 /\ k = 1 -> "exact"
-    [] v = "qed" /\ q = 0 /\ k = 2 -> "gfun"
-    [] v = "qed" /\ q = 0 /\ k >= 3 -> "param"
+  CASE q = 0 /\ k = 1 -> "exact"
+    [] q = 0 /\ k = 2 -> "gfun"                     \* exact expressions, approximated Mellin g-functions
+    [] q = 0 /\ k = 3 -> "param3"                   \* NNLO parametrisations (Moch, Vermaseren, Vogt)
+    [] q = 0 /\ k = 4 /\ fl = "fhmruvv" -> "param"  \* documented "0.1 % or better" parametrisations
+    [] q = 0 /\ k = 4 /\ fl = "eko" -> "constrained" \* in-house set, built on the sum rules
     [] v = "qed" /\ q = 1 /\ k = 0 -> "exact"
     [] v = "qed" /\ q >= 1 -> "gfun"                  \* as1aem1 (g3), aem2 built on it
 (* required exponent x100 of the relative residual: exact 1e-9; g-function          *)
-(* approximations 1e-4 (tests assert 4e-5 absolute on entries of O(10)); documented *)
-(* parametrisation accuracy 1e-3 x 10                                               *)
-AccExp(a) == CASE a = "exact" -> -900 [] a = "gfun" -> -400 [] a = "param" -> -200
+(* approximations and the in-house N3LO set 1e-4 (tests assert 4e-5 absolute on     *)
+(* entries of O(10)); NNLO parametrisations 1e-3 (tests pin residuals of 4e-3 on    *)
+(* entries of O(300)); documented FHMRUVV accuracy 1e-3 x 10                         *)
+AccExp(a) == CASE a = "exact" -> -900 [] a = "gfun" -> -400 [] a = "constrained" -> -400
+               [] a = "param3" -> -300 [] a = "param" -> -200
 
 (* A rule: evaluation point, the combination (sector, row, column, weight) whose     *)
 (* weighted sum must vanish (indices 0-based as in the code; -1 = scalar), an extra   *)
@@ -255,13 +256,16 @@ CuspMaxOrder(v) == IF v = "us" THEN 4 ELSE 3
 (* gg: (C_A/C_F) A_k = 9/4 A_k only for k <= 3: at four loops quartic Casimirs break  *)
 (* Casimir scaling (A_g,4 # (C_A/C_F) A_q,4); the code follows the literature, so    *)
 (* the clause is not decided (and not flagged) for k = 4.                             *)
+(* a cell carries the expected slope num/(10^4 dd) and the normalisation den/(10^4 dd) *)
 PlanC27Ns ==
-  {c \in {[v |-> v, sec |-> s, k |-> k, nf |-> nf, fl |-> fl, j |-> j, num |-> Cusp1e4(k, nf), den |-> Cusp1e4(k, 0)] :
+  {c \in {[v |-> v, sec |-> s, k |-> k, nf |-> nf, fl |-> fl, j |-> j,
+            num |-> Cusp1e4(k, nf), den |-> Cusp1e4(k, 0), dd |-> 1] :
             v \in CuspVariants, s \in {"ns+", "ns-", "nsv"}, k \in 1..4, nf \in 3..5,
             fl \in {"-", "fhmruvv", "eko"}, j \in Pts} :
      c.k <= CuspMaxOrder(c.v) /\ c.fl \in Flavours(c.k)}
 PlanC27Gg ==
-  {[v |-> v, sec |-> "gg", k |-> k, nf |-> nf, fl |-> "-", j |-> j, num |-> 9 * Cusp1e4(k, nf), den |-> 4 * Cusp1e4(k, 0)] :
+  {[v |-> v, sec |-> "gg", k |-> k, nf |-> nf, fl |-> "-", j |-> j,
+    num |-> 9 * Cusp1e4(k, nf), den |-> 9 * Cusp1e4(k, 0), dd |-> 4] :
      v \in CuspVariants, k \in 1..3, nf \in 3..5, j \in Pts}
 (* required exponent x100 of |slope - A_k(nf)| / A_k(0), N pairs in [3e4, 1e5]:     *)
 (* the unchanged tree stays below 2.1e-4 (finite-N corrections ~ ln N / N)          *)
@@ -282,21 +286,28 @@ OmeRule(r) ==
 OmeRules(k) == IF k = 1 THEN {"mom-g", "mom-q", "mom-h", "num"} ELSE {"mom-g", "mom-q", "num"}
 OmeAcc(k) == CASE k = 1 -> -900 [] k = 2 -> -400 [] k = 3 -> -300
 PlanC29Sum ==
-  {c \in {[law |-> "OmeSumRule", rule |-> r, k |-> k, nf |-> nf, msbar |-> m, j |-> j] :
+  {c \in {[law |-> "OmeSumRule", rule |-> r, def |-> OmeRule(r), k |-> k, nf |-> nf, msbar |-> m, j |-> j] :
             r \in {"mom-g", "mom-q", "mom-h", "num"}, k \in 1..3, nf \in OmeNf, m \in {0, 1}, j \in Pts} :
      c.rule \in OmeRules(c.k) /\ (c.msbar = 1 => (c.k = 2 /\ c.rule \in {"mom-g", "mom-q"}))}
 C29SumVerdict(c, o) ==
   Judge(o.e, IF Switch = "ome-exact" THEN -900 ELSE OmeAcc(c.k), "C29:" \o c.rule)
 
-(* RG law for the L-dependence, first and second order (see EkoreLawsTrace header     *)
-(* and harness/ekorelaws/omerge.py for the embedding):                                *)
-(*   dA1/dL = G0(nf) - G0(nf+1)                                                        *)
-(*   dA2/dL = A1 G0(nf) - G0(nf+1) A1 + G1(nf) - G1(nf+1) + d1'(L) ... (harness)       *)
+(* RG law for the L-dependence, first order.  With f(nf+1) = A(a, L) f(nf), L = ln(mu^2/m^2)  *)
+(* and d f / d ln mu^2 = -gamma f in both schemes, order a^1 of the RG equation reads          *)
+(*     dA1/dL = G0(nf) - G0(nf+1)                                                              *)
+(* in the basis (g, Sigma_light, h+), where the embeddings are                                 *)
+(*     G0(nf)   = [[gg(nf), gq, 0], [qg(nf), qq, 0], [0, 0, 0]]      (heavy quark inert)       *)
+(*     G0(nf+1) = [[gg(nf+1), gq, gq], [qg(nf), qq, 0], [qg(1), 0, qq]]  (qg split nf : 1)     *)
+(* (time-like: the same with the transposed roles the code uses, gq(N, nf) split nf : 1).      *)
+(* Beta-function and decoupling terms start at order a^2.  Columns judged: all three for the   *)
+(* unpolarised matching (intrinsic heavy-quark column implemented), gluon and light-quark      *)
+(* columns for the polarised and time-like matching.                                           *)
 OmeRgeVariants == {"us", "ps", "ut"}
+RgeCols(v) == IF v = "us" THEN <<0, 1, 2>> ELSE <<0, 1>>
 PlanC29Rge ==
-  {c \in {[law |-> "OmeRge", v |-> v, k |-> k, nf |-> nf, j |-> j] :
-            v \in OmeRgeVariants, k \in 1..2, nf \in OmeNf, j \in Pts} : c.k <= 1}
-C29RgeVerdict(c, o) == Judge(o.e, -800, "C29:rge:" \o c.v)
+  {[law |-> "OmeRge", v |-> v, cols |-> RgeCols(v), k |-> 1, nf |-> nf, j |-> j] :
+     v \in OmeRgeVariants, nf \in OmeNf, j \in Pts}
+C29RgeVerdict(c, o) == Judge(o.e, IF Switch = "ome-exact" THEN -1700 ELSE -800, "C29:rge:" \o c.v)
 PlanC29 == PlanC29Sum \cup PlanC29Rge
 C29Verdict(c, o) == IF c.law = "OmeRge" THEN C29RgeVerdict(c, o) ELSE C29SumVerdict(c, o)
 
